@@ -89,7 +89,7 @@ class KaniEngine:
             covers = [c for c in checks if c.get("category") == "cover"]
             named = sorted({c["description"].strip('"') for c in checks
                             if c.get("category") == "assertion" and re.match(r'"?C\d+\.', c.get("description", ""))})
-            st = solver.get(hid, {}).get("cbmc_stats", {})
+            st = (solver.get(hid) or {}).get("cbmc_stats") or {}
             status = "passed"
             reason = ""
             if r["status"] != "Success":
@@ -109,7 +109,7 @@ class KaniEngine:
                 "obligations": len(checks),
                 "discharged": sum(1 for c in checks if c["status"] in ("Success", "Unreachable", "Satisfied")),
                 "named": named,
-                "back_end": "CBMC %s / %s" % (data["tools"].get("cbmc", "?"), solver.get(hid, {}).get("configuration", {}).get("solver", "?")),
+                "back_end": "CBMC %s / %s" % (data["tools"].get("cbmc", "?"), ((solver.get(hid) or {}).get("configuration") or {}).get("solver", "?")),
                 "solver_s": float(st.get("runtime_decision_procedure_s", 0.0) or 0.0),
                 "wall_s": r.get("duration_ms", 0) / 1000.0,
                 "stubs_applied": stubs_applied,
@@ -124,7 +124,7 @@ class KaniEngine:
         info = self._prep()
         cache = self.__dict__.setdefault("_playback", {})
         if h["name"] in cache:
-            return self._pick(cache[h["name"]], want_desc)
+            return self._pick(cache[h["name"]], want_desc, h["name"])
         cmd = self.base_cmd() + ["-Z", "concrete-playback", "--concrete-playback=print", "--harness", h["name"], "--exact"]
         # --exact needs the full path
         cmd[-2] = self.modpath_of(h["file"]) + "::" + h["name"]
@@ -132,13 +132,32 @@ class KaniEngine:
         cmd += ["--harness-timeout", f"{min(h['timeout'], 300)}s"]
         rc, out, _ = sh(cmd, cwd=info["crate_dir"], timeout=min(h["timeout"], 300) + 240)
         cache[h["name"]] = out
-        return self._pick(out, want_desc)
+        return self._pick(out, want_desc, h["name"])
+
+    def prefetch_counterexamples(self, hs, log):
+        """One `cargo kani --concrete-playback=print` run for all failed harnesses (in parallel)
+        instead of one run per harness; fills the per-harness cache used by counterexample()."""
+        cache = self.__dict__.setdefault("_playback", {})
+        todo = [h for h in hs if h["name"] not in cache]
+        if len(todo) < 2:
+            return
+        info = self._prep()
+        tmo = min(max(h["timeout"] for h in todo), 600)
+        cmd = self.base_cmd() + ["-Z", "concrete-playback", "--concrete-playback=print", "-j", "8", "--harness-timeout", f"{tmo}s"]
+        for h in todo:
+            cmd += ["--harness", h["name"]]
+        log(f"[{self.name}] extracting counterexamples for {len(todo)} harnesses in one run")
+        rc, out, _ = sh(cmd, cwd=info["crate_dir"], timeout=tmo * 2 + 600)
+        for h in todo:
+            cache[h["name"]] = out
 
     @staticmethod
-    def _pick(out, want_desc):
+    def _pick(out, want_desc, harness=None):
         tests = []
-        for tm in re.finditer(r"/// Test generated for harness.*?\n///\s*\n/// Check for `([a-z_]+)`: (.*?)\n(.*?)\n}", out, re.S):
-            cat, desc, body = tm.group(1), tm.group(2).strip(), tm.group(3)
+        for tm in re.finditer(r"/// Test generated for harness([^\n]*)\n///\s*\n/// Check for `([a-z_]+)`: (.*?)\n(.*?)\n}", out, re.S):
+            hline, cat, desc, body = tm.group(1), tm.group(2), tm.group(3).strip(), tm.group(4)
+            if harness and harness not in hline and ("`" in hline):
+                continue
             vals = []
             for vm in re.finditer(r"^\s*vec!\[([0-9,\s]*)\],?\s*$", body, re.M):
                 vals.append([int(x) for x in vm.group(1).split(",") if x.strip()])
